@@ -29,7 +29,8 @@ func (pass *RetypeObject) processObject(_ *Visitor, _ *ast.Schema, object ast.Ob
 
 	trailMessage := fmt.Sprintf("RetypeObject[%s → %s]", ast.TypeName(object.Type), ast.TypeName(pass.As))
 
-	object.Type = pass.As
+	// every matching object gets its own copy of the configured type
+	object.Type = pass.As.DeepCopy()
 	object.AddToPassesTrail(trailMessage)
 
 	if pass.Comments != nil {
